@@ -99,6 +99,19 @@ impl InstanceState {
     }
 }
 
+#[cfg(dust_dds_verif)]
+impl InstanceState {
+    /// Verification hook: (view_state, instance_state, disposed and no-writers generation counts)
+    pub fn verif_state(&self) -> (ViewStateKind, InstanceStateKind, i32, i32) {
+        (
+            self.view_state,
+            self.instance_state,
+            self.most_recent_disposed_generation_count,
+            self.most_recent_no_writers_generation_count,
+        )
+    }
+}
+
 #[derive(Debug)]
 pub struct ReaderSample {
     pub kind: ChangeKind,
